@@ -115,13 +115,38 @@
        C13_noref3d_correct, C13_norefmd_correct; shape: C13_noref2d_shape = selection from the interior entries followed
        by the extreme entries; the 2-D code's implicit reference point (first objective of the last sorted point, maximal
        second objective) is the component-wise maximum: C13_noref2d_implicit_reference).
+     * HypervolumeCalculatorMDHOY (C13Hoy.v, model of the class as coded after /repo commit 589fd5bd: operator() = filter
+       strictly below the reference point, std::sort by the last objective, m_sqrtNoPoints from the unfiltered size,
+       regLow = component-wise minimum; stream = first covering point / cover update / removal of the points at the new
+       cover, isPile, the trellis sweep with computeTrellis as the signed sum over the binary digits of 1 .. 2^(m-1)-1, the
+       search for the split bound with containsBoundary, the two candidate lists, getMedian (1 -> first, 2 -> second, odd ->
+       middle, even -> mean of the two middle values) and the threshold m_sqrtNoPoints, child regions and child point sets
+       by partCovers; run on the doubled integers so that the mean of two coordinates is exact) = hv_spec for EVERY point
+       set below the reference point (duplicates, dominated points, ties in every objective, points on the reference
+       boundary, negative coordinates), EVERY number of objectives >= 1 (the front end uses it for 4), every order the sort
+       may leave equal last objectives in (C13_hoy_correct; C13_hoy_correct_any_tie_order for the recursion on any integer
+       input).  Statement about every reachable call (C13_hoy_stream_measure): for a region [low, up), points sorted by the
+       last objective that partly cover the region and lie in [zlo, cover), and the split-dimension invariant "every point
+       has at most one dimension below split with point[i] > regionLow[i]", stream returns the number of unit cells of
+       region x [zlo, cover) dominated by the points, PROVIDED the fuel exceeds mu = sum over the points of (1 + number of
+       dimensions with point[i] > regionLow[i]); both children have a strictly smaller mu (the upper child loses the point
+       with the largest candidate coordinate >= median, in the lower child the candidate <= median is no longer above the
+       lower corner), and the entry point supplies n * m + 1 > mu (C13_hoy_fuel_sufficient).  The search for the split bound
+       never leaves the first m-1 objectives (C13_hoy_split_search_stays_inside: no call state reachable from operator()
+       yields the node NStuck, i.e. split <= m-2 always).  Ingredients: computeTrellis(low, up, t) = prod(up - low) -
+       prod(t - low) (C13_hoy_trellis_formula); the slab above the first covering point is full, below it only points with
+       a smaller last objective matter (C13_hoy_cover_step); the pile sweep = measure of the union of the piles
+       (C13_hoy_pile_sweep); hv_spec(2 ref, 2 S) = 2^m hv_spec(ref, S) (C13_hoy_doubling).
+       Hence UNCONDITIONALLY (extracted instance hoy in the HOY slot): the front end HypervolumeCalculator = hv_spec in every
+       dimension (C13_hv_dispatcher_correct_all_dimensions), HypervolumeContributionMD = contrib_spec for every number of
+       objectives >= 2 (C13_contrib_md_correct_all_dimensions, C13_contrib_md_smallest_all_dimensions / _largest_), the
+       contribution front end with and without reference point (C13_contrib_front_correct_all_dimensions, _smallest_, _largest_,
+       C13_noref_front_correct_all_dimensions).
+       Modelled, not verified: double arithmetic on half-integers is exact (the model computes on the doubled integers; the
+       check compares values, the recursion tree (sizes of the child point sets of every splitting call, read from the real
+       code through a logging set type), getMedian and computeTrellis next to the code on every run); regionLow[m-1] /
+       regionUp[m-1] are dead data.
    NOT PROVED, only compared on every run (tools/c13.py, exact integer arithmetic):
-     * HypervolumeCalculatorMDHOY (the front end's algorithm for exactly 4 objectives; hence C13_hv_dispatcher_correct,
-       C13_contrib_md_correct, C13_contrib_front_correct and C13_noref_front_correct carry "not 4 objectives, or HOY =
-       hv_spec"): differential test against hv_spec (extracted) and the independent Python monitor, 3-5 objectives, also
-       with negative coordinates and split bounds equal to -1 (stream HOYNEG; the value -1.0 was the code's "no bound yet"
-       sentinel and corrupted the heap until /repo commit 589fd5bd: corpus/C13/hoy_split_bound_minus_one.txt).  A model of
-       HOY needs rational split bounds (medians) and a measure on rational boxes; not attempted.
      * 2-D subset selection WITHOUT reference point: differential test and monitor only.
      * DC sort for fewer than 2 objectives: the code reads obj[-1] (ndHelperB with k = 0); outside the property's range. *)
 From Coq Require Import List ZArith Permutation Sorted.
@@ -131,6 +156,7 @@ From SharkV Require Import C13ContribMd C13Contrib3d C13Contrib3dBoxProofs C13Co
 From SharkV Require Import C13Hssp C13HsspEnvProofs C13HsspProofs C13HsspFrontProofs C13Disp C13DispProofs.
 From SharkV Require Import C13Dc C13DcAuxProofs C13DcSweepProofs C13DcProofs.
 From SharkV Require Import C13ContribMd C13ContribMdProofs C13ContribNoref C13ContribNorefProofs.
+From SharkV Require Import C13Hoy C13HoyBoxProofs C13HoyCoverProofs C13HoyPileProofs C13HoySplitProofs C13HoyProofs C13HoyCorProofs.
 Import ListNotations.
 
 (* ---- dominance *)
@@ -779,3 +805,136 @@ Theorem C13_noref_example :
   noref_front (fun _ _ => 0%Z) false S2 5 = [(0%Z, 3); (0%Z, 1); (1%Z, 2); (0%Z, 0); (0%Z, 4)].
 Proof. exact noref_example. Qed.
 Print Assumptions C13_noref_example.
+
+(* ---- HypervolumeCalculatorMDHOY (C13Hoy.v) *)
+Theorem C13_hoy_correct :
+  forall ref S, ref <> [] -> below_ref ref S -> hoy ref S = hv_spec ref S.
+Proof. exact hoy_correct. Qed.
+Print Assumptions C13_hoy_correct.
+
+Theorem C13_hoy_correct_any_tie_order :
+  forall arr : list (list Z * Z) -> list (list Z * Z),
+    (forall l, Permutation (arr l) l) -> (forall l, StronglySorted by_last (arr l)) ->
+    forall ref S, ref <> [] -> below_ref ref S -> hoy_top arr ref S = hv_spec ref S.
+Proof. exact hoy_top_correct. Qed.
+Print Assumptions C13_hoy_correct_any_tie_order.
+
+Theorem C13_hoy_stream_measure :
+  forall fuel sq low up pts split cover zlo,
+    length low = length up -> Forall2 Z.le low up -> wf_pts low up zlo cover pts ->
+    StronglySorted by_last pts -> split_inv low pts split -> mu low pts < fuel ->
+    stream fuel sq low up pts split cover = vol low up zlo cover pts.
+Proof. exact stream_correct. Qed.
+Print Assumptions C13_hoy_stream_measure.
+
+Theorem C13_hoy_split_search_stays_inside :
+  forall sq low up pts split cover zlo r,
+    length low = length up -> wf_pts low up zlo cover pts -> StronglySorted by_last pts -> split_inv low pts split ->
+    stream_node sq low up pts split cover <> NStuck r.
+Proof. exact stream_node_not_stuck. Qed.
+Print Assumptions C13_hoy_split_search_stays_inside.
+
+Theorem C13_hoy_fuel_sufficient :
+  forall low (pts : list (list Z * Z)) m,
+    (forall p, In p pts -> Datatypes.S (length (fst p)) = m) -> mu low pts < stream_fuel (length pts) m.
+Proof. exact hoy_top_fuel_sufficient. Qed.
+Print Assumptions C13_hoy_fuel_sufficient.
+
+Theorem C13_hoy_trellis_formula :
+  forall low up tr, length low = length up -> length low = length tr ->
+    compute_trellis low up tr = (lprod (edges up low) - lprod (edges tr low))%Z.
+Proof. exact compute_trellis_formula. Qed.
+Print Assumptions C13_hoy_trellis_formula.
+
+Theorem C13_hoy_cover_step :
+  forall low up pts cover zlo,
+    length low = length up -> (forall p, In p pts -> length (fst p) = length low) ->
+    StronglySorted by_last pts -> (forall p, In p pts -> (zlo <= snd p < cover)%Z) -> Forall2 Z.le low up ->
+    forall cover' k res, cover_step low up pts cover = (cover', k, res) ->
+      vol low up zlo cover pts = (res + vol low up zlo cover' (firstn k pts))%Z.
+Proof. exact cover_step_vol. Qed.
+Print Assumptions C13_hoy_cover_step.
+
+Theorem C13_hoy_pile_sweep :
+  forall low up, length low = length up -> Forall2 Z.le low up ->
+    forall P pl zlo cover res, pile_list low P = Some pl -> P <> [] ->
+      (forall p, In p P -> length (fst p) = length low /\ covers (fst p) low = false /\ (zlo <= snd p < cover)%Z) ->
+      StronglySorted by_last P ->
+      pile_sweep low up up pl cover res = (res + vol low up zlo cover P)%Z.
+Proof. exact pile_sweep_vol. Qed.
+Print Assumptions C13_hoy_pile_sweep.
+
+Theorem C13_hoy_spec_is_measure :
+  forall ref T lo, ref <> [] -> (forall p, In p T -> length p = length ref) -> lower_bound lo T ->
+    hv_spec ref T = vol (repeat lo (length ref - 1)) (removelast ref) lo (last ref 0%Z) (map to_hpt T).
+Proof. exact hv_spec_vol. Qed.
+Print Assumptions C13_hoy_spec_is_measure.
+
+Theorem C13_hoy_doubling :
+  forall ref S, hv_spec (dbl ref) (map dbl S) = (2 ^ Z.of_nat (length ref) * hv_spec ref S)%Z.
+Proof. exact hv_spec_dbl. Qed.
+Print Assumptions C13_hoy_doubling.
+
+Theorem C13_hoy_example :
+  below_ref [4; 4; 4; 4]%Z [[0; 3; 2; 1]; [1; 2; 3; 0]; [2; 1; 0; 3]; [3; 0; 1; 2]; [1; 1; 2; 2]; [0; 2; 2; 3]; [2; 2; 1; 4]; [1; 3; 0; 2]; [1; 3; 0; 2]]%Z /\
+  hoy [4; 4; 4; 4]%Z [[0; 3; 2; 1]; [1; 2; 3; 0]; [2; 1; 0; 3]; [3; 0; 1; 2]; [1; 1; 2; 2]; [0; 2; 2; 3]; [2; 2; 1; 4]; [1; 3; 0; 2]; [1; 3; 0; 2]]%Z = 87%Z /\
+  hv_spec [4; 4; 4; 4]%Z [[0; 3; 2; 1]; [1; 2; 3; 0]; [2; 1; 0; 3]; [3; 0; 1; 2]; [1; 1; 2; 2]; [0; 2; 2; 3]; [2; 2; 1; 4]; [1; 3; 0; 2]; [1; 3; 0; 2]]%Z = 87%Z.
+Proof. exact hoy_example. Qed.
+Print Assumptions C13_hoy_example.
+
+(* ---- unconditional corollaries: the extracted HOY model in the HOY slot *)
+Theorem C13_hv_dispatcher_correct_all_dimensions :
+  forall ref S, below_ref ref S -> hv_dispatch hoy ref S = hv_spec ref S.
+Proof. exact hv_dispatch_hoy_correct. Qed.
+Print Assumptions C13_hv_dispatcher_correct_all_dimensions.
+
+Theorem C13_contrib_md_correct_all_dimensions :
+  forall ref S, 2 <= length ref -> below_ref ref S ->
+    contribs_md_inst hoy ref S = combine (contribs_spec ref S) (seq 0 (length S)).
+Proof. exact contribs_md_hoy_correct. Qed.
+Print Assumptions C13_contrib_md_correct_all_dimensions.
+
+Theorem C13_contrib_md_smallest_all_dimensions :
+  forall ref S k, 2 <= length ref -> below_ref ref S -> k <= length S ->
+    let res := smallest_kv k (contribs_md_inst hoy ref S) in
+    map fst res = smallest_k k (contribs_spec ref S) /\ length res = k /\ NoDup (map snd res) /\
+    forall v i, In (v, i) res -> i < length S /\ v = contrib_spec ref S i.
+Proof. exact md_smallest_hoy_correct. Qed.
+Print Assumptions C13_contrib_md_smallest_all_dimensions.
+
+Theorem C13_contrib_md_largest_all_dimensions :
+  forall ref S k, 2 <= length ref -> below_ref ref S -> k <= length S ->
+    let res := largest_kv k (contribs_md_inst hoy ref S) in
+    map fst res = largest_k k (contribs_spec ref S) /\ length res = k /\ NoDup (map snd res) /\
+    forall v i, In (v, i) res -> i < length S /\ v = contrib_spec ref S i.
+Proof. exact md_largest_hoy_correct. Qed.
+Print Assumptions C13_contrib_md_largest_all_dimensions.
+
+Theorem C13_contrib_front_correct_all_dimensions :
+  forall ref S, 2 <= length ref -> below_ref ref S -> (length ref <= 3 -> mutually_nondominated S) ->
+    Permutation (contribs_front hoy ref S) (combine (contribs_spec ref S) (seq 0 (length S))).
+Proof. exact contribs_front_hoy_correct. Qed.
+Print Assumptions C13_contrib_front_correct_all_dimensions.
+
+Theorem C13_contrib_front_smallest_all_dimensions :
+  forall ref S k, 2 <= length ref -> below_ref ref S -> (length ref <= 3 -> mutually_nondominated S) -> k <= length S ->
+    let res := contrib_front_smallest hoy ref S k in
+    map fst res = smallest_k k (contribs_spec ref S) /\ length res = k /\ NoDup (map snd res) /\
+    forall v i, In (v, i) res -> i < length S /\ v = contrib_spec ref S i.
+Proof. exact contrib_front_smallest_hoy_correct. Qed.
+Print Assumptions C13_contrib_front_smallest_all_dimensions.
+
+Theorem C13_contrib_front_largest_all_dimensions :
+  forall ref S k, 2 <= length ref -> below_ref ref S -> (length ref <= 3 -> mutually_nondominated S) -> k <= length S ->
+    let res := contrib_front_largest hoy ref S k in
+    map fst res = largest_k k (contribs_spec ref S) /\ length res = k /\ NoDup (map snd res) /\
+    forall v i, In (v, i) res -> i < length S /\ v = contrib_spec ref S i.
+Proof. exact contrib_front_largest_hoy_correct. Qed.
+Print Assumptions C13_contrib_front_largest_all_dimensions.
+
+Theorem C13_noref_front_correct_all_dimensions :
+  forall largest S k d, S <> [] -> same_dim d S -> 2 <= d -> (d <= 3 -> mutually_nondominated S) -> k <= length S ->
+    length (noref_front hoy largest S k) = k /\ NoDup (map snd (noref_front hoy largest S k)) /\
+    forall v i, In (v, i) (noref_front hoy largest S k) -> i < length S /\ v = contrib_spec (implicit_ref S) S i.
+Proof. exact noref_front_hoy_correct. Qed.
+Print Assumptions C13_noref_front_correct_all_dimensions.
